@@ -435,6 +435,13 @@ func flagOp(cc *ssa.CallCommon) (op string, ok bool) {
 			return
 		}
 		name := sx.StaticCalleeName(c)
+		// methods of the typed atomics (atomic.Bool, atomic.Int32, ...) are the same operations:
+		// sync/atomic.Bool.Store -> sync/atomic.Store
+		if strings.HasPrefix(name, "sync/atomic.") {
+			if rest := strings.TrimPrefix(name, "sync/atomic."); strings.Contains(rest, ".") {
+				name = "sync/atomic." + rest[strings.Index(rest, ".")+1:]
+			}
+		}
 		switch {
 		case strings.HasPrefix(name, "sync/atomic.Store"), strings.HasPrefix(name, "sync/atomic.Swap"):
 			stores++
@@ -455,6 +462,12 @@ func flagOp(cc *ssa.CallCommon) (op string, ok bool) {
 		return "get", true
 	case stores == 1 && stored != nil:
 		if k, isC := stored.(*ssa.Const); isC && k.Value != nil {
+			if k.Value.Kind() == constant.Bool {
+				if constant.BoolVal(k.Value) {
+					return "set", true
+				}
+				return "clear", true
+			}
 			if constant.Sign(k.Value) == 0 {
 				return "clear", true
 			}
